@@ -376,6 +376,9 @@ func parseAux(aux []byte) ([]sam.Aux, error) {
 				if i+8 > len(aux) {
 					return nil, errors.New("bam: truncated aux data")
 				}
+				if jumps[aux[i+3]] <= 0 {
+					return nil, fmt.Errorf("bam: invalid array type for aux data: %q", aux[i+3])
+				}
 				length := binary.LittleEndian.Uint32(aux[i+4 : i+8])
 				j = int(length)*jumps[aux[i+3]] + int(unsafe.Sizeof(length)) + 4
 				if j < 0 || i+j < 0 || i+j > len(aux) {
